@@ -5,7 +5,7 @@ import json
 from props.C01 import describe_list
 
 ID = "C02"
-PROP_FILES = ["Properties/C02.v"]
+PROP_FILES = ["Properties/C02.v", "Properties/C02_keywords.v"]
 THEOREMS = ["C02_resolve_refines", "C02_resolve_total_on_documented", "C02_refuted_factor_order"]
 ASSUMPTIONS = [
     "term identity follows the implementation: ordered component lists (a:b and b:a differ, finding KF-C02-3)",
@@ -23,6 +23,8 @@ KW_ATOMS = ["h(x, k=1)", "h(x, k=2)", "a", "h(x, m=1)"]
 # ... and call atoms that differ only in the ORDER of their keyword arguments are one atom (Python passes keyword
 # arguments by name); KF-C02-11
 KWPERM_ATOMS = ["h(x, k=1, m=2)", "h(x, m=2, k=1)", "a", "h(x, k=2, m=1)"]
+# ... while the order of the OPERANDS of an operator inside a call argument is part of the atom
+OPERAND_ATOMS = ["I(x - z)", "I(z - x)", "a", "I(x / z)", "I(z / x)", "{x ** 2}", "{2 ** x}", "I(x < z)", "I(z < x)"]
 OPS = ["+", "-", ":", "*", "/"]
 
 
@@ -87,6 +89,12 @@ def gen(rng, tier):
         for t in _trees(n, KWPERM_ATOMS, OPS):
             if t.count("h(") >= 2:
                 add(f"y ~ {t}", f"kwperm{n}")
+    for t in _trees(1, OPERAND_ATOMS, OPS):
+        if t.count("(") >= 2 + (1 if t.startswith("(") else 0) and "a" not in t.replace("a)", ""):
+            add(f"y ~ {t}", "operand-order1")
+    for a_, b_ in [("I(x - z)", "I(z - x)"), ("I(x / z)", "I(z / x)"), ("{x ** 2}", "{2 ** x}"), ("I(x < z)", "I(z < x)")]:
+        for tmpl in ["{a} + w - {b}", "{a} + {b} - {a}", "({a} + {b}):w", "({a} | g) + ({b} | g)", "({a} + {b})**2", "w / ({a} + {b})"]:
+            add("y ~ " + tmpl.format(a=a_, b=b_), "operand-order2")
     for e in ["h(x, k=1, m=2) + h(x, m=2, k=1)", "h(x, k=1, m=2) + h(x, m=2, k=1) - h(x, k=1, m=2)"]:
         for g in ["g", "h(g, k=1, m=2) + h(g, m=2, k=1)"]:
             add(f"y ~ ({e} | {g})", "kwperm-effect")
